@@ -186,6 +186,15 @@ pub fn script_with_strays(big: bool, max_depth: u32) -> BoxedStrategy<Vec<El>> {
         .boxed()
 }
 
+/// `depth` blocks nested through their ELSE branches: IF ELSE IF ELSE … NOP … ENDIF ENDIF
+pub fn nest_via_else(depth: u32, code: u8) -> Vec<El> {
+    let mut cur = vec![El::Op(0x61)];
+    for _ in 0..depth {
+        cur = vec![El::If { code, pass: vec![], fail: Some(cur) }];
+    }
+    cur
+}
+
 /// `depth` nested blocks: IF IF … [ELSE] ENDIF ENDIF, innermost body one opcode
 pub fn nest(depth: u32, with_else: bool, code: u8) -> Vec<El> {
     let mut cur = vec![El::Op(0x61)];
